@@ -20,36 +20,36 @@ LEVEL = "model_checking"
 MOD = "mc.props.c07"
 
 
-def convert(doc, nd):
+def convert(doc, nd, opts=None):
     from picosvg.svg import SVG
 
-    return SVG.fromstring(doc).topicosvg(ndigits=nd).tostring()
+    return SVG.fromstring(doc).topicosvg(ndigits=nd, **(opts or {})).tostring()
 
 
-def chain(doc, nd):
+def chain(doc, nd, opts=None):
     """-> (outcome, why, [documents seen])"""
     from picosvg.svg import SVG
 
     try:
-        out1 = convert(doc, nd)
+        out1 = convert(doc, nd, opts)
     except Exception as e:  # noqa
         return "root-rejected:" + type(e).__name__, None, [doc]
     seen = [doc, out1]
     try:
-        errs = SVG.fromstring(out1).checkpicosvg()
+        errs = SVG.fromstring(out1).checkpicosvg(allow_text=bool((opts or {}).get("allow_text")))
     except Exception as e:  # noqa
         return "returned", f"checkpicosvg() on the converted document raised {type(e).__name__}: {e}", seen
     if errs:
         return "returned", f"converted document fails checkpicosvg(): {errs}", seen
     try:
-        out2 = convert(out1, nd)
+        out2 = convert(out1, nd, opts)
     except Exception as e:  # noqa
         return "returned", f"second conversion raised {type(e).__name__}: {e}", seen
     seen.append(out2)
     if out2 != out1:
         return "returned", "pass 2 differs from pass 1", seen
     try:
-        out3 = convert(out2, nd)
+        out3 = convert(out2, nd, opts)
     except Exception as e:  # noqa
         return "returned", f"third conversion raised {type(e).__name__}: {e}", seen
     seen.append(out3)
@@ -74,26 +74,26 @@ def evaluate(case):
     n = 0
     trans = 0
     sample = None
-    for nd in case["nds"]:
+    for nd, opts in [(nd, o) for o in case.get("opts", [{}]) for nd in (case["nds"] if not o else sorted(set(case["nds"]) & {0, 3}, reverse=True))]:
         n += 1
-        o, why, seen = chain(doc, nd)
+        o, why, seen = chain(doc, nd, opts)
         outs[o] += 1
         trans += max(0, len(seen) - 1) + (1 if o.startswith("root-rejected") else 0)
         for s in seen:
             states.add(core.h64(s))
         if o == "returned" and len(seen) > 1 and seen[1] != doc:
-            nts.add(core.h64(doc + str(nd)))
+            nts.add(core.h64(doc + str(nd) + repr(opts)))
             if sample is None and len(doc) < 1200:
                 sample = {"root": doc, "ndigits": nd, "fixed_point": seen[1][:1500]}
         if why:
-            det = {"why": why, "ndigits": nd}
+            det = {"why": why, "ndigits": nd, "options": opts}
             if len(seen) >= 3:
                 i = _first_diff(seen[-2], seen[-1])
                 det["pass_a"] = seen[-2][max(0, i - 200) : i + 300]
                 det["pass_b"] = seen[-1][max(0, i - 200) : i + 300]
             elif len(seen) == 2:
                 det["pass_1"] = seen[1][:2000]
-            viols.append({"sig": {"kind": "not-idempotent" if "differs" in why else "check-failed", "src": case.get("src", "")}, "case": {"fam": "one", "doc": doc, "ndigits": nd, "src": case.get("src", "")}, "detail": det})
+            viols.append({"sig": {"kind": "not-idempotent" if "differs" in why else "check-failed", "src": case.get("src", ""), "options": ",".join(sorted(opts or {}))}, "case": {"fam": "one", "doc": doc, "ndigits": nd, "opts": opts, "src": case.get("src", "")}, "detail": det})
     return {"n": n, "outs": outs, "nts": nts, "viol": viols[:3], "sample": sample, "sets": {"states": states}, "cnt": {"transitions": trans}}
 
 
@@ -152,13 +152,21 @@ def cases(tier, seed):
         if src == "G1g":
             # kept / flattened groups: opacity products meet the coarsest and the default rounding
             nds = [0, 1, 3] if tier == "quick" else [0, 1, 2, 3, 4, 5, 6]
-        yield {"doc": doc, "nds": nds, "src": src}
+        opts = [{}]
+        if any(t in doc for t in ("<image", "<mask", "<filter", "<pattern", "<a ", "<foreignObject", "<style>", "<symbol id")):
+            opts.append({"drop_unsupported": True})
+        if "<text" in doc:
+            opts.append({"allow_text": True})
+            opts.append({"allow_text": True, "drop_unsupported": True})
+        if len(opts) > 1 and nds == [3]:
+            nds = [3, 0]
+        yield {"doc": doc, "nds": nds, "src": src, "opts": opts}
 
 
 def run(run):
     run.rule = (
         "E1 on the conversion function: roots = the enumerated corpora of C01 (all single kinds, all pairs of base kinds, root attribute), C08 (reference sharing), "
-        "the rendering checks' corpora (C02-C06, C19 when built) and every svg file under /repo/tests; ndigits 3 everywhere, all of 0..6 on every 16th (quick) / 4th (thorough) "
+        "the rendering checks' corpora (C02-C06, C19) and every svg file under /repo/tests; options: default, plus drop_unsupported=True on documents with unsupported elements and allow_text (+drop_unsupported) on documents with text; ndigits 3 (and 0) everywhere, all of 0..6 on every 16th (quick) / 4th (thorough) "
         "root and on the repository files. From each root: root -> out1 -> out2 -> out3. Oracle: out2 == out1 and out3 == out2 byte for byte; "
         "SVG.fromstring(out1).checkpicosvg() == (). states = distinct documents seen, transitions = conversions. Non-trivial = root converts and out1 != root."
     )
@@ -171,7 +179,7 @@ def run(run):
 
 
 def replay(case):
-    o, why, seen = chain(case["doc"], case["ndigits"])
+    o, why, seen = chain(case["doc"], case["ndigits"], case.get("opts"))
     if why:
         return [{"sig": {"kind": "not-idempotent"}, "case": case, "detail": {"why": why}}]
     return []
